@@ -67,15 +67,15 @@ func (c *callRecorder) WriteHeader(code int) { c.calls = append(c.calls, "h"+I(c
 
 // capture handler: remembers the attributes given to WithAttrs and every record
 type capHandler struct {
-	mu    *sync.Mutex
-	attrs []slog.Attr
-	recs  *[]string
-	min   slog.Level // records below it are not enabled (the zero value admits Info and above)
+	mu     *sync.Mutex
+	attrs  []slog.Attr
+	recs   *[]string
+	min    slog.Level // records below it are not enabled (the zero value admits Info and above)
 	useMin bool
 }
 
 func (h capHandler) Enabled(_ context.Context, l slog.Level) bool { return !h.useMin || l >= h.min }
-func (h capHandler) WithGroup(string) slog.Handler            { return h }
+func (h capHandler) WithGroup(string) slog.Handler                { return h }
 func (h capHandler) WithAttrs(as []slog.Attr) slog.Handler {
 	return capHandler{mu: h.mu, attrs: append(slices.Clone(h.attrs), as...), recs: h.recs, min: h.min, useMin: h.useMin}
 }
@@ -204,6 +204,6 @@ func init() {
 		Gen:   genC20,
 		Exec:  map[string]Executor{"wrap": execWrap, "logmw": execLogMw, "logmwlvl": execLogMwLvl},
 		Class: func(fn string, args []string, obs string) string { return fn },
-		Rule: "wrap: middleware lists of length 0..5 recording pre/post order; Wrap is called twice on the same caller-owned slice. logmw: 1..5 successive requests through one LogMiddleware (so pooled objects are reused) with distinct method/host/URI/remote address, handlers that write headers 0..2 times (incl. 1xx then final) and bodies; observed: what the inner handler sees, what the client receives, the 'started' and 'finished' records with the context logger's four attributes and the code. The concurrent interleavings are explored by the -race driver 'logmw' of cmd/conc. distinct=arguments",
+		Rule:  "wrap: middleware lists of length 0..5 recording pre/post order; Wrap is called twice on the same caller-owned slice. logmw: 1..5 successive requests through one LogMiddleware (so pooled objects are reused) with distinct method/host/URI/remote address, handlers that write headers 0..2 times (incl. 1xx then final) and bodies; observed: what the inner handler sees, what the client receives, the 'started' and 'finished' records with the context logger's four attributes and the code. The concurrent interleavings are explored by the -race driver 'logmw' of cmd/conc. distinct=arguments",
 	}
 }
